@@ -244,6 +244,17 @@ Theorem C06_ids_increase_refuted :
   new_instance_id 1 (2 ^ 32 - 1) [] = Some (2 ^ 32 - 1, 0) /\ new_instance_id 1 0 [] = Some (0, 1).
 Proof. exact new_instance_id_wraps. Qed.
 
+(* a restart keeps the counter (the invariant survives MRestart: C06_manager_invariant covers it);
+   recomputing it from the instances still listed (seeded change C06-r2m1) hands out the id of an
+   instance whose deletion was interrupted, together with its keys *)
+Theorem C06_recomputed_counter_refuted :
+  let m0 := {| m_next := 1; m_taken := []; m_store := [] |} in
+  exists m1 m2 m3,
+    mgr_run m0 [MNew; MNew; MOp 2 (IPut 1 0 [177; 1; 97; 0] [7])] = Some m1 /\
+    mgr_step (restart_recomputed m1 [1]) MNew = Some m2 /\ instance_slice 2 (m_store m2) <> [] /\
+    mgr_run m1 [MRestart [1]; MNew] = Some m3 /\ m_taken m3 = [3; 1] /\ instance_slice 3 (m_store m3) = [].
+Proof. exact restart_recomputed_witness. Qed.
+
 (* ---- non-vacuity ---- *)
 Example C06_initial_manager_inv : forall start, 0 < start -> start < 2 ^ 32 ->
   mgr_inv {| m_next := start; m_taken := []; m_store := [] |}.
